@@ -292,6 +292,7 @@ pub struct CheckArgs {
     /// Explicit file list for pre-commit hooks. When provided, skips directory
     /// scanning and processes only the specified files. Structure checks are
     /// disabled in this mode. Files are separated by commas or spaces.
+    /// With --diff or --staged only the listed files that git reports as changed are processed.
     #[arg(long, value_delimiter = ',', num_args = 1..)]
     pub files: Vec<PathBuf>,
 }
